@@ -167,13 +167,13 @@ class Emitter:
             num, den = self.norm.ratnorm(m.args[0])
             qq = m.args[1]
             pw = " ".join([name] * qq)
+            # even root: the non-negative one (arguments may be 0, e.g. norms); odd root: determined by the power equation
+            sign = "(>= %s 0.0)" % name if qq % 2 == 0 else "true"
             if den:
                 dn = self.norm.den_node(den)
-                self.axioms.append(
-                    "(assert (and (> %s 0.0) (= (* %s %s) %s)))" % (name, pw, self.ref(dn), self.ref(num))
-                )
+                self.axioms.append("(assert (and %s (= (* %s %s) %s)))" % (sign, pw, self.ref(dn), self.ref(num)))
             else:
-                self.axioms.append("(assert (and (> %s 0.0) (= (* %s) %s)))" % (name, pw, self.ref(num)))
+                self.axioms.append("(assert (and %s (= (* %s) %s)))" % (sign, pw, self.ref(num)))
         elif op == "cosh":
             self.axioms.append("(assert (>= %s 1.0))" % name)
         elif op == "exp":
